@@ -8,6 +8,7 @@ import (
 	"path/filepath"
 	"regexp"
 	"sort"
+	"strconv"
 	"strings"
 	"time"
 )
@@ -25,6 +26,9 @@ type Report struct {
 	viaCallee []string // functions included because a function of the property calls them (their whole contract is checked)
 	bounded   []map[string]interface{}
 	extraViol []string
+
+	replaysTried int
+	replayStart  time.Time
 }
 
 type knownFinding struct {
@@ -348,8 +352,23 @@ func (r *Report) replay(o *Obligation, dir string) (string, bool) {
 	}
 	reproduced := false
 	if !r.rc.noReplay {
-		if gopath, ok := r.tryReplay(o, dir, &b); gopath != "" {
-			reproduced = ok
+		// replay budget of one run: an edit that breaks many obligations at once (an uncontracted call
+		// that havocs the heap fails every frame clause after it) would otherwise spend many minutes
+		// on replays that add nothing to the verdict. Every failed obligation is still reported.
+		maxN, maxS := 24, 300.0
+		if v, err := strconv.Atoi(os.Getenv("LIMEVC_MAX_REPLAYS")); err == nil {
+			maxN = v
+		}
+		if r.replayStart.IsZero() {
+			r.replayStart = time.Now()
+		}
+		if r.replaysTried >= maxN || time.Since(r.replayStart).Seconds() > maxS {
+			fmt.Fprintf(&b, "replay: not attempted (replay budget of this run used up: %d attempts, %.0f s); run the check with LIMEVC_MAX_REPLAYS=<n> for more\n", r.replaysTried, time.Since(r.replayStart).Seconds())
+		} else {
+			r.replaysTried++
+			if gopath, ok := r.tryReplay(o, dir, &b); gopath != "" {
+				reproduced = ok
+			}
 		}
 	}
 	os.WriteFile(path, []byte(b.String()), 0o644)
